@@ -150,6 +150,7 @@ def worker_main(prop, seeds, hashseed, out_path, tier):
     faulthandler.enable()
     faulthandler.dump_traceback_later(int(os.environ.get("VERIF_WORKER_TIMEOUT", "3000")), exit=True)
     spec = P.PROPS[prop]
+    os.environ["VERIF_CURRENT_PROP"] = prop
     root = os.path.join(R.scratch_root(), "behave-sim-%d" % os.getpid())
     os.makedirs(root, exist_ok=True)
     stats = Stats()
@@ -213,6 +214,8 @@ def _finish_violation(prop, world, v, known, spec, root, ctx, minimise=True):
     # minimise + write replay
     from . import minimise as MIN
     w2 = world
+    if v["rule"] == "hang":
+        minimise = False        # every probe of the minimiser would wait for the watchdog again
     if minimise and spec.get("reproduce"):
         try:
             if spec.get("minimise"):
@@ -420,6 +423,7 @@ def run_replay(prop, spec, path):
         env["PYTHONDONTWRITEBYTECODE"] = "1"
         return subprocess.call([sys.executable, os.path.join(HERE, "check"), prop, "--replay", path], env=env, cwd=HERE)
     _setup_path()
+    os.environ["VERIF_CURRENT_PROP"] = prop
     from . import runtime as R
     root = os.path.join(R.scratch_root(), "behave-sim-replay-%d" % os.getpid())
     os.makedirs(root, exist_ok=True)
